@@ -66,6 +66,16 @@ def fmtFloat (isDouble : Bool) (r : Str) (nonneg : Bool) : Str :=
   let s := if s.contains 'e' then replaceE (if isDouble then 'D' else 'E') s else s
   if nonneg then ' ' :: s else s
 
+/-- the significant digits a float text shows: sign, point and leading zeros dropped, exponent cut off -/
+def shownDigits (s : Str) : Str :=
+  (((dropMinus s).takeWhile (· ≠ 'e')).filter (· ≠ '.')).dropWhile (· = '0')
+
+/-- format_number for a DOUBLE (as repaired): `r` = str(n) (shortest text that reads back), `near` = '%.*e' % (digits - 1, |n|)
+    (the nearest numeral with as many digits), `r17` = '%.17g' % n.  The shortest text is kept when it is also the nearest. -/
+def chooseDouble (r near r17 : Str) : Str :=
+  if shownDigits r = [] then r
+  else if shownDigits near = shownDigits r then r else r17
+
 /-- format_number for a SINGLE: `sn` = str(n), `r2` = str(round(n, k)) where rounding applies, `t` = '%.6e' % n -/
 def fmtSingle (sn r2 t : Str) (nonneg : Bool) : Str :=
   let r := if (singleRoundDigits sn).isSome then r2 else sn
